@@ -118,6 +118,10 @@ def format_path( segments, count=None ):
         element			= None
         for seg in segments:
             if 'symbolic' in seg:
+                if symbolic and element is not None:
+                    # An index on a preceding (non-final) component stays with that component
+                    symbolic   += "[%d]" % ( element )
+                    element	= None
                 symbolic       += ( '.' if symbolic else '' ) + seg['symbolic']
             elif 'class' in seg and len( numeric ) == 0:
                 numeric.append( "0x%04X" % seg['class'] )
